@@ -134,7 +134,7 @@ func (s LocalStore) Verify(ctx context.Context, n int, repair bool, w io.Writer)
 
 	// Go trough all chunks underneath Base, filtering out other files, then feed
 	// the IDs to the workers
-	err := filepath.Walk(s.Base, func(path string, info os.FileInfo, err error) error {
+	err := filepath.Walk(s.walkRoot(), func(path string, info os.FileInfo, err error) error {
 		// See if we're meant to stop
 		select {
 		case <-ctx.Done():
@@ -179,7 +179,7 @@ func (s LocalStore) Verify(ctx context.Context, n int, repair bool, w io.Writer)
 // of chunks
 func (s LocalStore) Prune(ctx context.Context, ids map[ChunkID]struct{}) error {
 	// Go trough all chunks underneath Base, filtering out other directories and files
-	err := filepath.Walk(s.Base, func(path string, info os.FileInfo, err error) error {
+	err := filepath.Walk(s.walkRoot(), func(path string, info os.FileInfo, err error) error {
 		// See if we're meant to stop
 		select {
 		case <-ctx.Done():
@@ -258,6 +258,16 @@ func (s LocalStore) GetChunkSize(id ChunkID) (int64, error) {
 		return 0, err
 	}
 	return i.Size(), nil
+}
+
+// walkRoot returns the directory to start walking the store from. filepath.Walk
+// doesn't follow symlinks, a store path that is a symlink to the actual store
+// directory would be walked without visiting a single chunk.
+func (s LocalStore) walkRoot() string {
+	if root, err := filepath.EvalSymlinks(s.Base); err == nil {
+		return root
+	}
+	return s.Base
 }
 
 func (s LocalStore) nameFromID(id ChunkID) (dir, name string) {
